@@ -87,6 +87,27 @@ def run_verus_unit(prop, unit, workdir, out, tier, known):
         # resource limit hit (typically while searching for a proof of a FAILING obligation): one retry with 4x the budget
         out.notes.append('%s: rlimit exceeded with default budget, retried with --rlimit 40' % unit)
         res = verus_run.run_verus(path, meta, workdir, rlimit=40, timeout=1800)
+        if res['status'] == 'undecided' and res.get('undecided') and not res.get('compile_errors'):
+            out.notes.append('%s: rlimit exceeded again, retried with --rlimit 100 and another SMT seed' % unit)
+            res = verus_run.run_verus(path, meta, workdir, rlimit=100, timeout=3600, extra=['--smt-option', 'smt.random_seed=7'])
+    def _real_failures(r):
+        return set((f['region'], f['message'], f['clause']) for f in r['failures']
+                   if not f['canary'] and not (f['region'] and any(x['id'] == f['region'] and x.get('known') for x in meta['functions'])))
+    if res['status'] == 'failed' and _real_failures(res):
+        # a definite failure of a FAILING-BY-CONSTRUCTION obligation persists under any solver seed; a brittle proof does not.
+        # Re-run once with another seed and a larger budget and keep only the failures that persist (a pass is a proof).
+        res2 = verus_run.run_verus(path, meta, workdir, rlimit=max(40, UNIT_RLIMIT.get(unit) or 0), timeout=1800,
+                                   extra=['--smt-option', 'smt.random_seed=11'])
+        if res2['status'] in ('ok', 'failed'):
+            keep = _real_failures(res) & _real_failures(res2)
+            dropped = _real_failures(res) - keep
+            if dropped:
+                out.notes.append('%s: %d failure(s) did not persist under a second solver seed (proof instability, not a violation): %s'
+                                 % (unit, len(dropped), sorted(str(d[0]) for d in dropped)))
+            res2['failures'] = [f for f in res2['failures'] if f['canary'] or (f['region'], f['message'], f['clause']) in keep
+                                or (f['region'] and any(x['id'] == f['region'] and x.get('known') for x in meta['functions']))]
+            res2['status'] = 'failed' if res2['failures'] else 'ok'
+            res = res2
     out.cmds.append(res['cmd'].replace(workdir, '<scratch>'))
     if res['status'] == 'undecided':
         out.undecided.append('%s: %s' % (unit, res['reason']))
